@@ -15,7 +15,8 @@ IMPL = 'props/C31/impl.py'
 
 def gen_case(rng, tier, i):
     coupled = (i % 3 == 2)
-    spec = kmodels.gen_spec(rng, ncomp=(2, 4), sizes=(1, 2, 3), coupled=coupled, nl_iters=rng.choice([3, 8, 30]))
+    spec = kmodels.gen_spec(rng, ncomp=(2, 4), sizes=(1, 2, 3), coupled=coupled, nl_iters=rng.choice([3, 8, 30]),
+                            extra_kinds=('exec', 'const'))
     if not coupled:
         spec['solvers'] = {}
     approx = False
@@ -70,6 +71,9 @@ def gen_case(rng, tier, i):
                 op['method'] = rng.choice(['fd', 'fd', 'cs'])
             if k == 'coloring':
                 op['via'] = rng.choice(['problem', 'function'])
+            if k != 'coloring' and free and rng.random() < 0.5:
+                # derivative values must not depend on which queries were made in between
+                op['tw'] = [resp or outs[:1], dv or free[:1]]
             seq.append(op)
     seq.append({'op': 'run', 'again': True})
     return {'spec': spec, 'seq': seq, 'approx': approx, 'seed': rng.randrange(10 ** 6)}
@@ -126,11 +130,12 @@ def run_cases(v, wd, cases, tag, compare=True):
         v.cov['broken_detail'] = log[-3000:]
         return False
     got, want, idx = [], [], []
-    tot = {'calls': 0, 'queries': 0, 'runs': 0, 'query_errors': 0, 'reruns': 0, 'skipped': 0,
+    tot = {'calls': 0, 'queries': 0, 'runs': 0, 'query_errors': 0, 'reruns': 0, 'skipped': 0, 'totals_pairs': 0,
            'raised_and_left_state_perturbed': 0, 'query_kinds': {}}
     for i, (c, r) in enumerate(zip(cases, results)):
         st = r.get('stats', {})
-        for k in ('calls', 'queries', 'runs', 'query_errors', 'reruns', 'raised_and_left_state_perturbed'):
+        for k in ('calls', 'queries', 'runs', 'query_errors', 'reruns', 'raised_and_left_state_perturbed',
+                  'totals_pairs'):
             tot[k] += st.get(k, 0)
         for k, n in st.get('query_kinds', {}).items():
             tot['query_kinds'][k] = tot['query_kinds'].get(k, 0) + n
